@@ -118,6 +118,12 @@ type c04Tr struct {
 	iters    map[string]string // iterator variable -> Gallina list
 	iterElem map[string]string // iterator variable -> Gallina name of the current element inside its loop
 
+	// the files in which a private helper called in tail position (`return helper(args)`) is looked up and
+	// inlined (a behaviour-preserving extraction of the end of a function into a helper)
+	files    []*ast.File
+	recvName string // receiver variable of the method being translated (methods of the same receiver can be inlined)
+	inlDepth int
+
 	inLoop  int
 	brk     []c04Cont
 	cont    []c04Cont
@@ -316,6 +322,21 @@ func (t *c04Tr) cond(env *c04Env, e ast.Expr) (static string, g string, err erro
 			}
 			return "", "(" + g1 + " " + op + " " + g2 + ")", nil
 		case token.EQL, token.NEQ:
+			// b == true, b == false, b != true, b != false (either side): the test b or its negation
+			for _, pr := range [][2]ast.Expr{{x.X, x.Y}, {x.Y, x.X}} {
+				lit, ok := pr[1].(*ast.Ident)
+				if !ok || (lit.Name != "true" && lit.Name != "false") {
+					continue
+				}
+				s, g, err := t.cond(env, pr[0])
+				if err != nil {
+					return "", "", err
+				}
+				if (lit.Name == "true") != (x.Op == token.EQL) {
+					s, g = neg(s, g)
+				}
+				return s, g, nil
+			}
 			// err == nil, err != nil, err == io.EOF (either side)
 			a, b := x.X, x.Y
 			if _, ok := b.(*ast.Ident); ok && (c04IsIdent(a, "nil") || types.ExprString(a) == "io.EOF") {
@@ -519,7 +540,16 @@ func (t *c04Tr) stmts(env *c04Env, l []ast.Stmt, k c04Cont) (string, error) {
 	case *ast.BlockStmt:
 		return t.stmts(env, c04Cat(s.List, rest), k)
 	case *ast.ReturnStmt:
+		if g, ok, err := t.inlineTail(env, s); ok || err != nil {
+			return g, err
+		}
 		return t.ret(t, env, s.Results)
+	case *ast.SwitchStmt:
+		ifs, err := t.switchToIf(s)
+		if err != nil {
+			return "", err
+		}
+		return t.stmts(env, append(ifs, rest...), k)
 	case *ast.DeferStmt:
 		if t.ignore != nil && t.ignore(s.Call) {
 			return t.stmts(env, rest, k)
@@ -639,6 +669,260 @@ func (t *c04Tr) stmts(env *c04Env, l []ast.Stmt, k c04Cont) (string, error) {
 		return t.recvLoop(env, s, rest, k)
 	}
 	return "", t.errf("statement outside the translated fragment")
+}
+
+// switch { case c1: A; case c2: B; default: C }  =  if c1 { A } else if c2 { B } else { C };
+// switch x { case a, b: A … } likewise with the tests x == a || x == b (x a plain variable).
+// A `break` inside a case would leave the switch, not the enclosing loop, and `fallthrough` joins two
+// cases: both are outside the fragment.
+func (t *c04Tr) switchToIf(s *ast.SwitchStmt) ([]ast.Stmt, error) {
+	var out []ast.Stmt
+	if s.Init != nil {
+		out = append(out, s.Init)
+	}
+	if s.Tag != nil {
+		// the tag is evaluated once in Go and once per test here: only expressions without effects
+		tag := s.Tag
+		if c, ok := tag.(*ast.CallExpr); ok && c04IsIdent(c.Fun, "len") && len(c.Args) == 1 {
+			tag = c.Args[0]
+		}
+		if _, ok := tag.(*ast.Ident); !ok {
+			return nil, t.errf("switch on %s (not a plain variable or its length)", types.ExprString(s.Tag))
+		}
+	}
+	bad := false
+	ast.Inspect(s.Body, func(n ast.Node) bool {
+		if b, ok := n.(*ast.BranchStmt); ok && (b.Tok == token.BREAK || b.Tok == token.FALLTHROUGH || b.Tok == token.GOTO) {
+			bad = true
+		}
+		return true
+	})
+	if bad {
+		return nil, t.errf("switch with break / fallthrough")
+	}
+	var dflt []ast.Stmt
+	hasDflt := false
+	type arm struct {
+		cond ast.Expr
+		body []ast.Stmt
+	}
+	var arms []arm
+	for _, c := range s.Body.List {
+		cc, ok := c.(*ast.CaseClause)
+		if !ok {
+			return nil, t.errf("switch body")
+		}
+		if cc.List == nil {
+			dflt, hasDflt = cc.Body, true
+			continue
+		}
+		var cond ast.Expr
+		for _, e := range cc.List {
+			one := e
+			if s.Tag != nil {
+				one = &ast.BinaryExpr{X: s.Tag, Op: token.EQL, Y: e}
+			}
+			if cond == nil {
+				cond = one
+			} else {
+				cond = &ast.BinaryExpr{X: cond, Op: token.LOR, Y: one}
+			}
+		}
+		arms = append(arms, arm{cond, cc.Body})
+	}
+	if len(arms) == 0 {
+		return append(out, dflt...), nil
+	}
+	var tail ast.Stmt
+	if hasDflt {
+		tail = &ast.BlockStmt{List: dflt}
+	}
+	for i := len(arms) - 1; i >= 0; i-- {
+		is := &ast.IfStmt{Cond: arms[i].cond, Body: &ast.BlockStmt{List: arms[i].body}}
+		if tail != nil {
+			is.Else = tail
+		}
+		tail = is
+	}
+	return append(out, tail), nil
+}
+
+// `return helper(args)` where helper is a private function of the translated files (or a method of the
+// same receiver): the call is replaced by the helper's body, its parameters standing for the argument
+// expressions (the arguments of the translated fragment have no effects; an argument whose evaluation can
+// panic — an index — is evaluated before the body, as Go does).  Tail position only: nothing of the caller
+// is needed afterwards, so the helper's locals may shadow the caller's.
+func (t *c04Tr) inlineTail(env *c04Env, s *ast.ReturnStmt) (string, bool, error) {
+	if len(s.Results) != 1 || len(t.files) == 0 {
+		return "", false, nil
+	}
+	call, ok := s.Results[0].(*ast.CallExpr)
+	if !ok || call.Ellipsis.IsValid() {
+		return "", false, nil
+	}
+	var fd *ast.FuncDecl
+	fun := call.Fun
+	switch ix := fun.(type) { // explicit type arguments: helper[T](…)
+	case *ast.IndexExpr:
+		fun = ix.X
+	case *ast.IndexListExpr:
+		fun = ix.X
+	}
+	switch f := fun.(type) {
+	case *ast.Ident:
+		for _, file := range t.files {
+			if d := c04TopFunc(file, f.Name); d != nil {
+				fd = d
+			}
+		}
+	case *ast.SelectorExpr:
+		if id, ok := f.X.(*ast.Ident); ok && t.recvName != "" && id.Name == t.recvName {
+			for _, file := range t.files {
+				for _, d := range file.Decls {
+					if m, ok := d.(*ast.FuncDecl); ok && m.Recv != nil && m.Name.Name == f.Sel.Name && c04RecvName(m) == t.recvName {
+						fd = m
+					}
+				}
+			}
+		}
+	}
+	if fd == nil || fd.Body == nil {
+		return "", false, nil
+	}
+	if t.inlDepth >= 3 {
+		return "", false, t.errf("helper calls nested too deep at %s", fd.Name.Name)
+	}
+	params := c04ParamNames(fd.Type)
+	nparams := 0
+	variadic := false
+	if fd.Type.Params != nil {
+		for _, f := range fd.Type.Params.List {
+			n := len(f.Names)
+			if n == 0 {
+				n = 1
+			}
+			nparams += n
+			if _, ok := f.Type.(*ast.Ellipsis); ok {
+				variadic = true
+			}
+		}
+	}
+	if variadic || nparams != len(params) || len(params) != len(call.Args) {
+		return "", false, t.errf("call of %s: parameters not recognised", fd.Name.Name)
+	}
+	// names the helper's body binds (their Gallina names must not capture the argument expressions)
+	bound := map[string]bool{}
+	ast.Inspect(fd.Body, func(n ast.Node) bool {
+		switch x := n.(type) {
+		case *ast.AssignStmt:
+			for _, l := range x.Lhs {
+				if id, ok := l.(*ast.Ident); ok {
+					bound[c04Name(id.Name)] = true
+				}
+			}
+		case *ast.ValueSpec:
+			for _, id := range x.Names {
+				bound[c04Name(id.Name)] = true
+			}
+		case *ast.RangeStmt:
+			for _, e := range []ast.Expr{x.Key, x.Value} {
+				if id, ok := e.(*ast.Ident); ok {
+					bound[c04Name(id.Name)] = true
+				}
+			}
+		}
+		return true
+	})
+	captured := func(g string) bool {
+		for _, tok := range strings.FieldsFunc(g, func(r rune) bool {
+			return !(r == '_' || r == '\'' || r >= '0' && r <= '9' || r >= 'a' && r <= 'z' || r >= 'A' && r <= 'Z')
+		}) {
+			if bound[tok] {
+				return true
+			}
+		}
+		return false
+	}
+	cenv := newC04Env()
+	for k, v := range env.vars {
+		if strings.Contains(k, ".") { // fields of the receiver
+			cenv.vars[k] = v
+		}
+	}
+	if sel, ok := fun.(*ast.SelectorExpr); ok {
+		if g, ok := env.vars[types.ExprString(sel.X)]; ok {
+			cenv.vars[types.ExprString(sel.X)] = g
+		}
+	}
+	saveBool, saveZero, saveType := t.boolVars, t.zeroOf, t.varType
+	nb, nz, nt := map[string]bool{}, map[string]string{}, map[string]string{}
+	for k, v := range saveType {
+		if strings.Contains(k, ".") {
+			nt[k] = v
+		}
+	}
+	var pre []string
+	var lets string
+	i := 0
+	for _, f := range fd.Type.Params.List {
+		for _, pn := range f.Names {
+			arg := call.Args[i]
+			i++
+			if types.ExprString(f.Type) == "bool" {
+				s, g, err := t.cond(env, arg)
+				if err != nil {
+					return "", false, err
+				}
+				if s != "" {
+					g = s
+				}
+				if captured(g) {
+					v := t.fresh("arg")
+					lets += "let " + v + " := " + g + " in\n "
+					g = v
+				}
+				cenv.set(pn.Name, g)
+				nb[pn.Name] = true
+				continue
+			}
+			p, g, err := t.expr(env, arg)
+			if err != nil {
+				return "", false, err
+			}
+			pre = append(pre, p...)
+			if captured(g) {
+				v := t.fresh("arg")
+				lets += "let " + v + " := " + g + " in\n "
+				g = v
+			}
+			cenv.set(pn.Name, g)
+			if id, ok := arg.(*ast.Ident); ok {
+				if z, ok := saveZero[id.Name]; ok {
+					nz[pn.Name] = z
+				}
+				if ty, ok := saveType[id.Name]; ok {
+					nt[pn.Name] = ty
+				}
+				if f, ok := env.facts[id.Name]; ok {
+					cenv.facts[pn.Name] = f
+				}
+			}
+		}
+	}
+	t.boolVars, t.zeroOf, t.varType = nb, nz, nt
+	t.inlDepth++
+	saveName := t.name
+	t.name = saveName + " -> " + fd.Name.Name
+	body, err := t.stmts(cenv, fd.Body.List, func(*c04Env) (string, error) {
+		return "", t.errf("control reaches the end without a return")
+	})
+	t.name = saveName
+	t.inlDepth--
+	t.boolVars, t.zeroOf, t.varType = saveBool, saveZero, saveType
+	if err != nil {
+		return "", false, err
+	}
+	return c04Binds(pre, lets+body), true, nil
 }
 
 func (t *c04Tr) lhsNames(as *ast.AssignStmt) ([]string, error) {
